@@ -265,6 +265,7 @@ def run_instances(res, tier, seed, model_ok, search):
                             ok_case = False
                 # ---- the same reference coming back on the cleared-orders path (listClearedOrders after settlement, live only):
                 # it recovers exactly the order that produced it, whatever separator that order was created with
+                k_item = None
                 if not same_name and kr.random() < 0.5:
                     from flumine.clients import ExchangeType
                     clr = mock.Mock(customer_order_ref=ref)
@@ -272,6 +273,8 @@ def run_instances(res, tier, seed, model_ok, search):
                     got = [y for m in fw.markets for y in m.blotter if y.cleared_order is clr]
                     want = [known[x]] if x in known else []
                     res.distribution["inst:cleared-order " + ("known" if want else "unknown")] += 1
+                    k_item = ("K:%s:%s" % (mkt.split(".")[1], enc(ref)),
+                              ("K%d/%s" % (recv_objs.index(got[0].trade.strategy), enc(got[0].id))) if got else "K-")
                     if got != want:
                         res.violate("cleared-order-not-recovered", "cleared order with reference %r (separator %r) was attached to %s, expected %s" % (
                             ref, o.sep, [y.id for y in got] or "nothing", [y.id for y in want] or "nothing"),
@@ -288,6 +291,9 @@ def run_instances(res, tier, seed, model_ok, search):
                         known[x] = y
                 else:
                     out.append("D")
+                if k_item is not None:
+                    mops.append(k_item[0])
+                    out.append(k_item[1])
         finally:
             for ex in (fw.simulated_execution, fw.betfair_execution, fw.betdaq_execution):
                 ex.shutdown()
